@@ -128,6 +128,7 @@ def scenario(g, i):
     s = gen.render(a, "Snake")
     tree += [{"p": "multi.txt", "k": "f", "c": ("é" + s + " " + s + "," + gen.render(a, "Camel") + " x" + s + "\r\n" + "☃ " + gen.render(a, "Pascal") + " " + s + "\nlast " + s).encode(), "m": 0o644},
              ]
+    tree += [{"p": "cr.txt", "k": "f", "m": 0o644, "c": ("first\nlet x = 1;\r let " + s + " = " + s + " + 1;\nnext " + gen.render(a, "Camel") + "\r" + s + " " + s + "\n").encode()}]
     tree += [{"p": "bom.txt", "k": "f", "m": 0o644,
               "c": ("\ufeff" + s + " = Acme." + s + ".Core;\n\u00a0" + s + " " + s + "\n\u200b" + gen.render(a, "Pascal") + " " + s + " \n  " + s + "  " + s + "  \n").encode()}]
     if i % 5 == 0:
